@@ -256,6 +256,15 @@ func runC06(c *run.Ctx) {
 		bsp = pick(named, "bpbr-spaces")
 	}
 	BytesS(c, "bytes", byteAlpha, 1, nb, func(in []byte) { eval(bsp, in) })
+	// long single tokens (text run, attribute value, comment) around internal buffer sizes
+	if c.Shard < 7 {
+		n := []int{4095, 4096, 4097, 65535, 65536, 70000, 300000}[c.Shard]
+		long := strings.Repeat("abcdefghij", n/10+1)[:n]
+		lp := pick(named, "bpbr", "ugc", "bpbr-spaces")
+		for _, doc := range []string{long, "<b>" + long + "</b>", `<a href="/x" title="` + long + `">t</a>x`, "<x>" + long, "t<!--" + long + "-->u", long + "&amp;" + long} {
+			eval(lp, []byte(doc))
+		}
+	}
 	if c.Shard == 0 {
 		c.Notes["policies_in_class"] = float64(len(all))
 	}
